@@ -229,6 +229,19 @@ where
         }
     }
 
+    /// Returns the index of `symbol` in the code table if the symbol has a code,
+    /// i.e., if it occurs in the indexed sequence. A symbol that does not fit in
+    /// a `usize` cannot occur and must not be confused with its truncation.
+    #[inline(always)]
+    fn code_index(&self, symbol: T) -> Option<usize> {
+        let index: usize = symbol.as_();
+        let back: T = index.as_();
+        if back != symbol || index >= self.codes_encode.len() || self.codes_encode[index].len == 0 {
+            return None;
+        }
+        Some(index)
+    }
+
     /// Returns the length of the indexed sequence.
     ///
     /// # Examples
@@ -431,10 +444,7 @@ where
     #[inline(always)]
     #[must_use]
     pub fn rank_prefetch(&self, symbol: T, i: usize) -> Option<usize> {
-        if i > self.n
-            || symbol.as_() >= self.codes_encode.len()
-            || self.codes_encode[symbol.as_() as usize].len == 0
-        {
+        if i > self.n || self.code_index(symbol).is_none() {
             return None;
         }
 
@@ -693,10 +703,7 @@ where
     #[must_use]
     #[inline(always)]
     fn rank(&self, symbol: Self::Item, i: usize) -> Option<usize> {
-        if i > self.n
-            || symbol.as_() >= self.codes_encode.len()
-            || self.codes_encode[symbol.as_()].len == 0
-        {
+        if i > self.n || self.code_index(symbol).is_none() {
             return None;
         }
 
@@ -783,11 +790,7 @@ where
     #[must_use]
     #[inline(always)]
     fn select(&self, symbol: Self::Item, i: usize) -> Option<usize> {
-        if symbol.as_() >= self.codes_encode.len()
-            || self.codes_encode[symbol.as_() as usize].len == 0
-        {
-            return None;
-        }
+        self.code_index(symbol)?;
 
         let mut path_off = Vec::with_capacity(self.n_levels);
         let mut rank_path_off = Vec::with_capacity(self.n_levels);
